@@ -108,6 +108,16 @@ def derive_history(scn):
     return scn["history"]
 
 
+def derive_label_offset(scn):
+    """Class identifiers are the caller's: one scenario in six uses identifiers far from 0 (1000.., 70000..) - what a label *is* (its
+    value) is all the library may use of it.  A function of the scenario's content, like the history; stored in the scenario."""
+    if "label_offset" not in scn:
+        key = json.dumps(["label", scn.get("kind"), scn.get("metric"), scn.get("I_train"), scn.get("Y")], sort_keys=True)
+        h = int(hashlib.sha256(key.encode()).hexdigest()[:8], 16) % 12
+        scn["label_offset"] = {0: 1000, 1: 70000}.get(h, 0)
+    return int(scn["label_offset"])
+
+
 def attach_stale_matrix(model, n):
     """History step 'stale_matrix' (feature-distance scenarios only): a distance matrix is attached to the object while
     pre-computed distances are switched off - as after constructing on a file and switching back, or assigning pre_distances
